@@ -43,6 +43,13 @@ type Reader struct {
 
 	offset int
 	rPool  bool
+
+	// srcErr is the error with which the source ended or failed. It is final:
+	// a request for more than what is buffered is answered with it instead of
+	// asking the source again (a bufio.Reader forgets a read error once it
+	// has reported it and would go back to the source for every box and every
+	// pending Exif value).
+	srcErr error
 }
 
 // NewReader returns a new bmff.Reader
@@ -57,13 +64,33 @@ func NewReader(r io.Reader) Reader {
 }
 
 func (r *Reader) peek(n int) ([]byte, error) {
-	return r.br.Peek(n)
+	if r.srcErr != nil && n > r.br.Buffered() {
+		buf, _ := r.br.Peek(r.br.Buffered())
+		return buf, r.srcErr
+	}
+	buf, err := r.br.Peek(n)
+	r.sourceError(err)
+	return buf, err
 }
 
 func (r *Reader) discard(n int) (int, error) {
+	if r.srcErr != nil && n > r.br.Buffered() {
+		n, _ = r.br.Discard(r.br.Buffered())
+		r.offset += n
+		return n, r.srcErr
+	}
 	n, err := r.br.Discard(n)
 	r.offset += n
+	r.sourceError(err)
 	return n, err
+}
+
+// sourceError remembers the error of the source (not the bufio.Reader's own
+// "buffer full" and "negative count", which say nothing about the source).
+func (r *Reader) sourceError(err error) {
+	if err != nil && err != bufio.ErrBufferFull && err != bufio.ErrNegativeCount {
+		r.srcErr = err
+	}
 }
 
 func (r *Reader) reset(newReader io.Reader) {
